@@ -66,7 +66,9 @@ type ACE struct {
 	OK           bool
 }
 
-func canonAddr(w []string) (string, int) {
+// canonAddr: ios = the line is an IOS entry (wildcard masks: "X 0.0.0.0"
+// is a host, "X 255.255.255.255" is any); otherwise ASA net masks.
+func canonAddr(w []string, ios bool) (string, int) {
 	if len(w) == 0 {
 		return "", 0
 	}
@@ -96,6 +98,15 @@ func canonAddr(w []string) (string, int) {
 		m, err2 := netip.ParseAddr(w[1])
 		if err1 == nil && err2 == nil && ip.Is4() && m.Is4() {
 			mb := m.As4()
+			if ios {
+				if mb == [4]byte{0, 0, 0, 0} {
+					return "host " + w[0], 2
+				}
+				if mb == [4]byte{255, 255, 255, 255} {
+					return "any", 2
+				}
+				return w[0] + " " + w[1], 2
+			}
 			if mb == [4]byte{255, 255, 255, 255} {
 				return "host " + w[0], 2
 			}
@@ -138,8 +149,11 @@ func canonPort(proto string, w []string) (string, int) {
 func ParseACE(text string) ACE {
 	w := fields(text)
 	a := ACE{}
+	// ASA entries are kept as "extended permit ...", IOS entries as "permit ..."
+	ios := true
 	if len(w) > 0 && w[0] == "extended" {
 		w = w[1:]
+		ios = false
 	}
 	if len(w) < 2 || (w[0] != "permit" && w[0] != "deny") {
 		a.Rest = text
@@ -167,13 +181,13 @@ func ParseACE(text string) ACE {
 		w = w[1:]
 	}
 	var n int
-	a.Src, n = canonAddr(w)
+	a.Src, n = canonAddr(w, ios)
 	w = w[n:]
 	if a.Proto == "tcp" || a.Proto == "udp" {
 		a.SPort, n = canonPort(a.Proto, w)
 		w = w[n:]
 	}
-	a.Dst, n = canonAddr(w)
+	a.Dst, n = canonAddr(w, ios)
 	w = w[n:]
 	if a.Proto == "tcp" || a.Proto == "udp" {
 		a.DPort, n = canonPort(a.Proto, w)
@@ -268,7 +282,7 @@ func addrMatch(spec string, ip netip.Addr, groups func(name string) []string) (b
 		for _, m := range groups(spec[13:]) {
 			w := fields(m)
 			if len(w) >= 2 && w[0] == "network-object" {
-				s, _ := canonAddr(w[1:])
+				s, _ := canonAddr(w[1:], false)
 				if ok, known := addrMatch(s, ip, groups); known && ok {
 					return true, true
 				} else if !known {
@@ -516,7 +530,7 @@ func (c *semCtx) content(r Ref) string {
 				}
 				cl := c.canonLine(w, sw, "", false)
 				if sw[0] == "network-object" {
-					a, _ := canonAddr(fields(cl)[1:])
+					a, _ := canonAddr(fields(cl)[1:], false)
 					cl = "network-object " + a
 				}
 				subs = append(subs, cl)
